@@ -44,7 +44,9 @@ structure Inv2 (j : Job) (cl : Cluster) (s : Sys) : Prop where
   flight_queued_or_ran : ∀ w t, s.inFlight w t → (w, t) ∈ s.env.queued ∨ s.env.ran t = true
   ev_count : ∀ w ds, s.allEv.count (Event.pubW w ds) ≤ 1
   ev_ran : ∀ w ds, Event.pubW w ds ∈ s.allEv → s.env.ran ds.task = true ∧ ds.out < j.nOut ds.task
-  ev_last_flight : ∀ w ds, Event.pubW w ds ∈ s.allEv → j.isLast ds = true → s.inFlight w ds.task
+  /-- while ANY output notice of a task is on its way the task is still in flight on the notice's worker
+      (completion needs the notices of all outputs) -/
+  ev_flight : ∀ w ds, Event.pubW w ds ∈ s.allEv → s.inFlight w ds.task
   inbox_phase : s.phase ≠ .notifying → s.phase ≠ .crashed → s.inbox = []
   ptrack_sound : ∀ ds t, t ∈ j.consumers ds → s.ctl.doneC t = false → s.ctl.ptracked ds = true ∧ t ∈ s.ctl.ptrack ds
   purgeQ_ok : ∀ ds, ds ∈ s.ctl.purgeQ → (∀ t, t ∈ j.consumers ds → s.ctl.doneC t = true) ∧
